@@ -125,6 +125,39 @@ theorem C08_no_block_forever_partial {q b : Nat} {c0 c : Cfg St Thread} (h0 : In
     ¬ Deadlock sys (fun t => t.finished = true) c :=
   no_deadlock (inv_reach h0 hr) (writer_mem_reach hw hr)
 
+/-- **Ranked waits-for (the `Once` is a lock class).**  In every reachable configuration an unfinished call
+can move or is blocked in exactly one of four ways, and these have ranks: waiting for `autoStartOnce` (3) →
+waiting for `startStopMutex` (2) → Stop in `writeWg.Wait()` / Enqueue on the full queue (1) → the writer
+goroutine (0).  Whoever is blocked at rank `r` waits for a thread that can move or is blocked at a strictly
+lower rank, and the writer can move whenever somebody waits for it.  So every blocked call reaches, in at most
+three hops, a thread that can move; in particular the thread inside the Once body may wait for the mutex but no
+holder of the mutex ever waits for the Once (the order a `StopBatchWriter` that touched the Once under the
+mutex would invert).  This is the per-call strengthening of `C08_no_block_forever_partial`; what is still
+missing for the third clause of `C08_statement` is the variant argument that the thread at the end of the chain
+releases the resource after finitely many of its own steps (start sequence: ≤ 9 steps; Stop's critical section:
+needs the writer to terminate; the writer: each loop iteration ends after at most batch-size receives, and the
+counter it waits for is released by producers whose remaining steps are bounded once the queue has room). -/
+theorem C08_waits_for_ranked {q b : Nat} {c0 c : Cfg St Thread} (h0 : Init q b c0) (hr : Reach sys c0 c) :
+    (∀ t ∈ c.2, t.finished = false →
+      Enabled c.1 t ∨ BlockedOnOnce c.1 t ∨ BlockedOnMutex c.1 t ∨ BlockedOnWait c.1 t ∨ BlockedOnQueue c.1 t) ∧
+    (∀ t ∈ c.2, BlockedOnOnce c.1 t →
+      ∃ u ∈ c.2, (bodyPre u = true ∨ bodyPost u = true) ∧ (Enabled c.1 u ∨ BlockedOnMutex c.1 u)) ∧
+    (∀ t ∈ c.2, BlockedOnMutex c.1 t →
+      ∃ u ∈ c.2, holdsMu u = true ∧ (Enabled c.1 u ∨ BlockedOnWait c.1 u)) ∧
+    (∀ t ∈ c.2, BlockedOnWait c.1 t ∨ BlockedOnQueue c.1 t → Enabled c.1 .writer) := by
+  have hi := inv_reach h0 hr
+  refine ⟨fun t _ hnf => blocked_classes c.1 t hi.l.once_le hnf, fun t _ hb => ?_, fun t _ hb => ?_, fun t ht hb => ?_⟩
+  · cases t with
+    | prod id pc cur sc => exact once_has_body hi hb.2
+    | _ => exact hb.elim
+  · cases t with
+    | prod id pc cur sc => exact mutex_has_holder hi hb.2
+    | stopper id pc => exact mutex_has_holder hi hb.2
+    | _ => exact hb.elim
+  · rcases hb with hb | hb
+    · exact wait_has_writer hi t ht hb
+    · exact queue_has_writer hi t ht hb
+
 /-- The property at full strength for a protocol `S`: on every reachable configuration the trace predicate
 holds, after the writer has terminated the final (all-or-nothing) check holds, and no unfinished Enqueue /
 Stop call is blocked for ever (some continuation lets it take a step). -/
